@@ -83,6 +83,9 @@ impl Oracle {
         self.members.retain(|_, m| !m.is_empty());
         let live: BTreeSet<String> = self.members.keys().cloned().collect();
         self.reported.retain(|(h, _), _| live.contains(h));
+        if self.expect_acl.as_ref().is_some_and(|e| !live.contains(&e.0)) {
+          self.expect_acl = None;
+        }
       }
     }
   }
@@ -424,6 +427,9 @@ impl Oracle {
                     if self.members.get(&h).is_some_and(|s| s.is_empty()) {
                       self.members.remove(&h);
                       self.reported.retain(|(hh, _), _| *hh != h);
+                      if self.expect_acl.as_ref().is_some_and(|e| e.0 == h) {
+                        self.expect_acl = None;
+                      }
                     }
                   }
                 }
